@@ -117,11 +117,11 @@ static bool chain_step(ChainState& st, mon::Rng& rng)
   std::string desc;
   const char* opclass = "?";
   const char* disc = "-";
-  int kind = rng.below(14);
+  int kind = rng.below(15);
   int64_t n = n_choices[rng.below(sizeof(n_choices) / sizeof(n_choices[0]))];
   if (rng.below(4) == 0) n = rng.range(-70000, 70000);
   static const char* kind_name[] = { "arithmetic", "arithmetic", "arithmetic", "arithmetic", "arithmetic", "deref-pointer-to-pointer", "address-of-field", "cast",
-                                     "malloc_in_sandbox", "app_pointer-to_tainted", "copy_memory_or_grant_access", "address-of-deref", "index-null", "copy_and_verify_address" };
+                                     "malloc_in_sandbox", "app_pointer-to_tainted", "copy_memory_or_grant_access", "address-of-deref", "index-null", "copy_and_verify_address", "field-of-null" };
   mon::ctx("chain/%s | %s n=%lld", kind_name[kind], st.hist.c_str(), (long long)n);
   bool ab = mon::aborts([&] {
     switch (kind) {
@@ -209,6 +209,21 @@ static bool chain_step(ChainState& st, mon::Rng& rng)
         tainted<int*, S> np = nullptr;
         next = addr_any(&np[n]);
         desc += mon::fmt("&null[%lld] ", (long long)n);
+        break;
+      }
+      case 14: { // -> , * and & chains that start from a null struct pointer
+        opclass = "field-of-null";
+        tainted<PS*, S> np = nullptr;
+        // what &np->field yields is the address operator-> (or operator*) returns plus the field's offset in the sandbox
+        // image; the members are not touched here (on a tree where the operator returns, that would be a null member access
+        // in this harness)
+        bool arrow = rng.coin();
+        uintptr_t objaddr = arrow ? reinterpret_cast<uintptr_t>(np.operator->()) : reinterpret_cast<uintptr_t>(std::addressof(*np));
+        static const size_t field_off[] = { offsetof(GPS, ptr), offsetof(GPS, v), offsetof(GPS, arr), offsetof(GPS, in), offsetof(GPS, cs) };
+        static const char* field_name[] = { "ptr", "v", "arr[0]", "in.cp", "cs" };
+        int k = rng.below(5);
+        next = objaddr + field_off[k];
+        desc += mon::fmt("&%s%s ", arrow ? "null->" : "(*null).", field_name[k]);
         break;
       }
       default: { // copy_and_verify_address on the pointer itself
